@@ -107,10 +107,23 @@ pub fn ops(args: &[&str]) -> String {
                 if let Some(e) = b.previous_node() {
                     eids.push(e.clone());
                 }
+                // what a receiver does with the payload of an administrative-record bundle
+                let rec = if b.is_administrative_record() {
+                    match b.payload() {
+                        Some(d) => match serde_cbor::from_slice::<bp7::administrative_record::AdministrativeRecord>(d) {
+                            Ok(_) => "OK",
+                            Err(_) => "ERR",
+                        },
+                        None => "NOPL",
+                    }
+                } else {
+                    "-"
+                };
                 let mut q = format!(
-                    "CRC {} ADM {} PREV {} LTX {} TS {}",
+                    "CRC {} ADM {} REC {} PREV {} LTX {} TS {}",
                     show_bool(crc),
                     show_bool(b.is_administrative_record()),
+                    rec,
                     prev,
                     show_bool(b.primary.is_lifetime_exceeded()),
                     show_bytes(b.primary.creation_timestamp.to_string().as_bytes())
@@ -132,6 +145,15 @@ pub fn ops(args: &[&str]) -> String {
                 b.sort_canonicals();
                 "-".into()
             }
+            // LIFENS <n < 1000000>: the lifetime Duration gets a sub-millisecond part (only possible through the API, not from the
+            // wire); the property counts the lifetime in whole milliseconds, so nothing observable may change
+            Some("LIFENS") => match t.u64() {
+                Some(n) if n < 1_000_000 => {
+                    b.primary.lifetime += std::time::Duration::from_nanos(n);
+                    "-".into()
+                }
+                _ => return "SKIP".into(),
+            },
             _ => return "BADCASE".into(),
         };
         out.push_str(&format!(" ; {} {}", ret, show_bundle(&b)));
@@ -143,6 +165,8 @@ pub fn ops(args: &[&str]) -> String {
         None => "NONE".into(),
     };
     let bytes = b.to_cbor();
+    // the wire carries whole milliseconds: a sub-millisecond part put into the lifetime by LIFENS cannot (and need not) come back
+    b.primary.lifetime = std::time::Duration::from_millis(b.primary.lifetime.as_millis() as u64);
     let rt = match Bundle::try_from(bytes.as_slice()) {
         Ok(d) => d == b,
         Err(_) => false,
